@@ -119,6 +119,7 @@ type presT struct {
 	BadID bool // malformed escape sits in the id part (else in the secret)
 	A     int  // assertion kind
 	VM    int  // cross-client kinds: auth method the second client Y is registered with
+	VG    bool // ... and whether Y is registered for every grant (else for none)
 }
 
 type caseT struct {
@@ -164,7 +165,7 @@ func (p presT) coq() string {
 	case pAssertTypeOnly, pAssertNoType, pAssertWrongType:
 		return partialN[p.Kind]
 	}
-	return emit.Ctor(crossN[p.Kind], methN[p.VM])
+	return emit.Ctor(crossN[p.Kind], emit.Ctor("mkV", methN[p.VM], emit.Bool(p.VG)))
 }
 func (p presT) tag() string {
 	switch p.Kind {
@@ -222,7 +223,7 @@ func (c caseT) tags() []string {
 	}
 	t = append(t, "prev="+prevT[c.Prev])
 	if isCross(c.Pres.Kind) {
-		t = append(t, "victim="+strings.ToLower(methN[c.Pres.VM][1:]))
+		t = append(t, "victim="+strings.ToLower(methN[c.Pres.VM][1:]), "victim_grants="+onoff(c.Pres.VG))
 	}
 	if c.Tag != "" {
 		t = append(t, c.Tag)
@@ -299,6 +300,8 @@ type outcome struct {
 	Writes int
 	Body   string
 	Who    string // client id the answer acted for ("" = nobody)
+	// device authorization followed to its end: did the named other client / the case's client obtain tokens by polling
+	PollOther, PollSelf bool
 }
 
 // run prepares the grant artefacts of one case in the store, sends the request and projects the answer.
@@ -333,7 +336,7 @@ func run(c caseT) outcome {
 		if c.Pres.VM == 2 {
 			v.Keys = map[string]*jose.JSONWebKey{"k1": {Key: &otherKey.PublicKey, KeyID: "k1", Algorithm: "ES256", Use: "sig"}}
 		}
-		for i := 0; i < 7; i++ {
+		for i := 0; i < 7 && c.Pres.VG; i++ {
 			v.Grants = append(v.Grants, oidc.GrantType(grantV[i]))
 		}
 		st.Clients[vid] = v
@@ -603,6 +606,40 @@ func run(c caseT) outcome {
 	for dcode, d := range st.Devices {
 		if dcode != "dc-"+id {
 			o.Who = d.State.ClientID
+			// follow the device flow to its end: the user approves, then the client the request named in its body
+			// (Y, with nothing but its id) and the client that authenticated (X, with the credential of its
+			// registered method) poll the token endpoint of the same router
+			st.Approve(d.UserCode, "alice")
+			poll := func(f url.Values, basic []string) bool {
+				f.Set("grant_type", grantV[gDevice])
+				f.Set("device_code", dcode)
+				rq := httptest.NewRequest(http.MethodPost, opfix.Issuer+"/oauth/token", strings.NewReader(f.Encode()))
+				rq.Header.Set("Content-Type", "application/x-www-form-urlencoded")
+				if basic != nil {
+					rq.SetBasicAuth(basic[0], basic[1])
+				}
+				pr := opfix.Do(w.f.Handlers[c.Router], rq)
+				t, _ := pr.JSON["access_token"].(string)
+				return pr.Status == 200 && t != ""
+			}
+			if cross {
+				o.PollOther = poll(url.Values{"client_id": {vid}}, nil)
+			}
+			switch c.Reg.Meth {
+			case 0:
+				o.PollSelf = poll(url.Values{}, []string{id, "sec-" + id})
+			case 1:
+				o.PollSelf = poll(url.Values{"client_id": {id}, "client_secret": {"sec-" + id}}, nil)
+			case 2:
+				o.PollSelf = poll(url.Values{"client_assertion_type": {oidc.ClientAssertionTypeJWTAssertion},
+					"client_assertion": {signAssertion(rightKey, id, []string{opfix.Issuer})}}, nil)
+			default:
+				o.PollSelf = poll(url.Values{"client_id": {id}}, nil)
+			}
+			if o.PollOther {
+				o.Who = vid // whoever the record names: the other client got the tokens
+			}
+			break
 		}
 	}
 	if o.Who == "" && o.Act {
@@ -679,7 +716,7 @@ var crossKinds = []int{pXBasic, pXAssert, pXPost, pXPostID, pXDup}
 // drawPres: one of the 16 single-client presentations or (1 in 4) a cross-client one
 func drawPres(r drv.Rand) presT {
 	if r.Chance(1, 4) {
-		return presT{Kind: drv.Pick(r, crossKinds), VM: r.IntN(4)}
+		return presT{Kind: drv.Pick(r, crossKinds), VM: r.IntN(4), VG: r.Bool()}
 	}
 	return drv.Pick(r, allPres())
 }
@@ -838,8 +875,10 @@ func systematic() []caseT {
 			for _, k := range crossKinds {
 				for _, meth := range []int{0, 2} {
 					for vm := 0; vm < 4; vm++ {
-						rg := regT{Known: true, Meth: meth, App: 0, Grants: full(), HasKey: true}
-						cs = append(cs, caseT{Router: router, Endpoint: x.e, Grant: x.g, Cfg: allOn, Reg: rg, Pres: presT{Kind: k, VM: vm}, Tag: "block=cross_client"})
+						for _, vg := range []bool{true, false} {
+							rg := regT{Known: true, Meth: meth, App: 0, Grants: full(), HasKey: true}
+							cs = append(cs, caseT{Router: router, Endpoint: x.e, Grant: x.g, Cfg: allOn, Reg: rg, Pres: presT{Kind: k, VM: vm, VG: vg}, Tag: "block=cross_client"})
+						}
 					}
 				}
 			}
@@ -905,7 +944,7 @@ func enumerate(r drv.Rand, emitCase func(caseT)) {
 							for flags := 0; flags < 8; flags++ {
 								for v := 0; v < 8; v++ { // v: known/registered/key/capability variants
 									c := caseT{Router: router, Endpoint: e, Grant: g, Pres: p, Pl: drawPl(r)}
-									c.Pres.VM = r.IntN(4)
+									c.Pres.VM, c.Pres.VG = r.IntN(4), r.Bool()
 									if r.Chance(1, 4) {
 										c.Prev = 1 + r.IntN(3)
 									}
@@ -937,7 +976,7 @@ func enumerate(r drv.Rand, emitCase func(caseT)) {
 							}
 							// unknown client: once per presentation
 							c := caseT{Router: router, Endpoint: e, Grant: g, Pres: p, Pl: drawPl(r), Cfg: cfgOf(r.IntN(64) | 7*r.IntN(2))}
-							c.Pres.VM = r.IntN(4)
+							c.Pres.VM, c.Pres.VG = r.IntN(4), r.Bool()
 							c.Reg = regT{Known: false, Meth: meth, App: app, HasKey: r.Bool()}
 							emitCase(c)
 						}
@@ -964,7 +1003,7 @@ func main() {
 			o.Panic = p
 		}
 		w.Add(emit.Case{Input: c.coq(), Observed: o.coq(), Tags: c.tags(),
-			Human: map[string]any{"status": o.Status, "error": strings.TrimPrefix(o.Err, "\x00"), "token": o.Tok, "active_or_revoked": o.Act, "panic": o.Panic, "body": o.Body, "acted_for": o.Who}})
+			Human: map[string]any{"status": o.Status, "error": strings.TrimPrefix(o.Err, "\x00"), "token": o.Tok, "active_or_revoked": o.Act, "panic": o.Panic, "body": o.Body, "acted_for": o.Who, "device_poll_other": o.PollOther, "device_poll_self": o.PollSelf}})
 	}
 	for _, c := range directed() {
 		add(c)
